@@ -59,9 +59,26 @@ PROBES = [
     "cmd_DIFF0", "cmd_DIFF1", "cmd_DIFF2", "cmd_DIFF3", "cmd_QLPC", "cmd_ZERO", "cmd_BLOCKSIZE", "cmd_BITSHIFT",
     "final_short_block", "refill_beyond_first_read", "negative_word", "qlpc_nonzero_coffset",
     "bitshift_v2_mean", "version_1", "skip_bytes", "ulaw_raw_codes", "shipped_vector", "body_ends_at_read_boundary",
-    "pipe", "decode_after_failed_decode",
+    "pipe", "decode_after_failed_decode", "cut_next_to_1k_boundary_beyond_first_read",
 ]
 FAULT_KINDS = ["truncate", "unknown_cmd", "bad_version", "bad_ftype"]
+
+
+def _snap(t, snap, lo, hi):
+    """Move a cut position close to a multiple of 1024 bytes (snap = signed distance, -8..8): decoders refill their bit
+    reader in blocks, and what is left over at the end of the last block - no byte, or fewer bytes than a 32-bit word -
+    is where "the stream ended early" has to be recognised. Short streams: the residue modulo the word size instead."""
+    if snap is None:
+        return t
+    if t >= 2048:
+        t2 = ((t + 512) // 1024) * 1024 + int(snap)
+        while t2 > hi:
+            t2 -= 1024
+    else:
+        t2 = (t // 4) * 4 + int(snap) % 4
+        while t2 > hi:
+            t2 -= 4
+    return t2 if lo <= t2 <= hi else t
 
 
 def _audio_dir():
@@ -74,6 +91,10 @@ def generate(rng, tier, k):
         if k >= 6:
             scn["fault"] = {"kind": "truncate", "frac": [0.0002, 0.003, 0.25, 0.5, 0.9, 0.9999][k - 6]}
         return scn
+    if rng.random() < 0.012:
+        # a shipped vector cut at a seeded position, placed relative to the reader's refill boundaries (the 16 KiB first
+        # read, then 1 KiB refills): a last refill of 0-3 bytes is where "not enough for a word" is decided
+        return {"vector": rng.choice(VECTORS), "fault": {"kind": "truncate", "frac": rng.random(), "snap": rng.randrange(-8, 9)}}
     version = rng.choice((1, 2, 2))
     ftype = rng.choice((3, 5, 8))
     nchan = rng.choice((1, 1, 2, 2, 3, 4)) if rng.random() < 0.97 else rng.choice((6, 8))
@@ -143,7 +164,8 @@ def generate(rng, tier, k):
            "order_seed": rng.randrange(1 << 20)}
     r = rng.random()
     if r < 0.22:
-        scn["fault"] = {"kind": "truncate", "frac": rng.choice((0.0, rng.random(), rng.random(), 0.999999))}
+        scn["fault"] = {"kind": "truncate", "frac": rng.choice((0.0, rng.random(), rng.random(), 0.999999)),
+                        "snap": rng.choice((None, None, rng.randrange(-8, 9), rng.randrange(-8, 9)))}
     elif r < 0.30:
         scn["fault"] = {"kind": "unknown_cmd", "at": rng.randrange(0, len(rounds) + 1), "code": rng.choice((9, 10, 11, 12, 17))}
     elif r < 0.35:
@@ -315,6 +337,9 @@ def execute(scn, keep_trace=False):
             res.fault("truncate")
             slen = len(raw) - hs
             t = max(4, min(int(fault["frac"] * (slen - 4)), slen - 5))
+            t = _snap(t, fault.get("snap"), 4, slen - 5)
+            if t > 17000 and (t + 8) % 1024 <= 16:
+                res.probe("cut_next_to_1k_boundary_beyond_first_read")
             data = raw[: hs + t]
             expect_err = True
             cut_cls = "@%d" % int(fault["frac"] * 4)
@@ -361,6 +386,9 @@ def execute(scn, keep_trace=False):
             slen = len(stream)
             t = min(int(fault["frac"] * (slen - 4)), slen - 5)
             t = max(0, t)
+            t = _snap(t, fault.get("snap"), 0, max(0, slen - 5))
+            if t > 17000 and (t + 8) % 1024 <= 16:
+                res.probe("cut_next_to_1k_boundary_beyond_first_read")
             stream = stream[:t]
             expect_err = True
             cut_cls = "@%s" % ("magic" if t < 5 else ("hdr" if t < 9 else "%d" % int(4 * t / max(1, slen))))
